@@ -7,9 +7,14 @@ for d in sorted(glob.glob('/verif/seeded/*/meta.json')):
     rows.append(m)
 out = ["# Seeded property-breaking changes and which check catches them", "",
        "Every change was written by an independent sub-agent that saw only the property record (and, from round b on, a one-line note on what earlier changes for that property did, to get different mechanisms) and worked in its own scratch worktree. I confirmed each one with `tools/confirm_mutant.sh` (full suite passes with the change; the demonstration fails with it and passes without it) and ran the checks with `tools/run_against.sh` (apply to /repo, `./check.sh <prop> quick`, undo).", "",
+       "The run indices quoted in the result column are those of the build that first met the change; the `latest run` note is rewritten by `tools/run_all_seeded.sh` (generator and engine changes move the index).", "",
        "| id | property | what the change does | needs | result |", "|---|---|---|---|---|"]
 for m in rows:
-    out.append(f"| {m['id']} | {m['property']} | {m['what']} | {m['needs_to_manifest']} | {m['result']} |")
+    latest = ""
+    lp = f"/verif/seeded/{m['id']}/latest.txt"
+    if os.path.exists(lp):
+        latest = " — latest run of the quick check: `" + open(lp).read().strip() + "`"
+    out.append(f"| {m['id']} | {m['property']} | {m['what']} | {m['needs_to_manifest']} | {m['result']}{latest} |")
 out += ["", f"{sum('DETECTED' in m['result'] for m in rows)} of {len(rows)} detected by the quick check of their property.", ""]
 open('/verif/seeded/RESULTS.md', 'w').write("\n".join(out))
 print("\n".join(out[-3:]))
